@@ -308,7 +308,8 @@ def index_common(it, S, t, callee, args, owned=False):
         it.oblige("precond:index", "index|idx=%s|len=%s" % (stable(ix), stable(ln)), proved, t["span"],
                   "index %s ; len %s" % (it.describe(S, ix), it.describe(S, ln)), callee="index")
         S.add_le(ix, ln, -1)
-        return ("ref", (loc[0], loc[1] + (("ix",),)))
+        ci = const_val(ix)
+        return ("ref", (loc[0], loc[1] + ((("ix", ci) if ci is not None else ("ix",)),)))
     return None
 
 
